@@ -74,6 +74,11 @@ def run_shape(shape, tier):
             sv = sqlmodel.expr(el, sc)
             obs.append(("SQL translation == meaning", (sqlmodel.as_bool(sv) if is_pred else sqlmodel.as_int(sv)) == truth,
                         {"sql": str(el)}))
+            if is_pred:
+                from ..relmodel import zand
+                terms = env.engines["sq"].convert_flattened_predicate(obj, {env.tags[c]: tbl.c[c] for c in COLS})
+                conj = zand(sqlmodel.as_bool(sqlmodel.expr(t, sc)) for t in terms)
+                obs.append(("SQL WHERE terms (convert_flattened_predicate) == meaning", conj == truth, {"terms": [str(t) for t in terms]}))
         except sqlmodel.OutsideModel as e:
             obs.append(("SQL translation inside model", True, {"outside": str(e)}))
             ctx.notes["outside"] = str(e)
@@ -156,6 +161,12 @@ def concrete_check(shape, row, bind, row2=None):
         return True, f"sql-raises:{type(e).__name__}", str(e)[:100]
     if (bool(sv) if is_pred else sv) != truth:
         return True, "sql-differs", {"sqlite": sv, "expected": truth, "sql": str(el)}
+    if is_pred:
+        import sqlalchemy as sa
+        terms = env.engines["sq"].convert_flattened_predicate(obj, {env.tags[c]: tbl.c[c] for c in COLS})
+        wv = sqlmodel.eval_expr_sqlite(sa.and_(sa.true(), *terms), tbl, row)
+        if bool(wv) != truth:
+            return True, "sql-where-terms-differ", {"sqlite": wv, "expected": truth, "terms": [str(t) for t in terms]}
     return False, "", None
 
 
